@@ -85,7 +85,7 @@ Qed.
 Definition pure_callees : list string := [
   "authtypes.NewModuleAddress"; "authtypes.NewModuleAddress().String";
   "_.GetAddress"; "_.GetAddress().String"; "_.String"; "_.Bytes";
-  "NewPair"; "bytes.Equal"; "bytes.Compare"; "strings.Compare"
+  "NewPair"; "bytes.Equal"; "bytes.Compare"; "strings.Compare"; "fmt.Sprintf"; "fmt.Sprint"; "fmt.Errorf"
 ].
 
 Definition ends_with (suffix s : string) : bool :=
@@ -247,4 +247,29 @@ Definition inc_okb (i : inc_site) : bool :=
   match i_scope i with
   | ScopeTooling => true
   | ScopeConsensus => existsb (inc_matches i) inc_table
+  end.
+
+(* ------------------------------------------------------------------ process-local mutable state *)
+
+(** Consensus results must be a function of the store and the block alone.  A package-level map that no function writes
+    after package initialisation is a constant table.  Every OTHER process-local container reachable from a long-lived
+    object must be listed here with the reason why block execution cannot observe a node-specific value in it. *)
+Inductive ps_just :=
+| PSStartup      (* filled while the app object is constructed, identically on every node, never written afterwards *)
+| PSTxScoped.    (* created at the start of a transaction and dropped at its end (not carried across txs / blocks / queries: C09) *)
+
+Definition ps_table : list (string * string * string * ps_just) := [
+  ("app", "NibiruApp", "keys", PSStartup);
+  ("x/evm/keeper", "Keeper", "precompiles", PSStartup);          (* AddPrecompiles at construction; registry order: add_precompiles_deterministic *)
+  ("x/evm/keeper", "NibiruBankKeeper", "StateDB", PSTxScoped)    (* the per-transaction StateDB pointer (subject of C09) *)
+].
+
+Definition ps_okb (p : pstate) : bool :=
+  match p_scope p with
+  | ScopeTooling => true
+  | ScopeConsensus =>
+      (String.eqb (p_owner p) "<package>" && negb (p_written p) &&
+       match p_kind p with PSMap => true | _ => false end) ||
+      existsb (fun e => let '(pkg, owner, field, _) := e in
+                        String.eqb (p_pkg p) pkg && String.eqb (p_owner p) owner && String.eqb (p_field p) field) ps_table
   end.
